@@ -199,7 +199,15 @@ def gen_wm_lle(rng):
     ts = rng.choice(["0x1p-10", "0x1p-4", "0x1p-7"] + (SHIFT_DEFAULTS[:1] if small else []))
     shift = rng.choice(SHIFTS + (SHIFT_DEFAULTS if small else []))
     return {"kind": "WM", "meth": "lle", "n": n, "d": 1, "shift": shift, "tshift": ts,
-            "nbrs": nb, "kern": K, "gen": "lle-" + kind}
+            "nbrs": ragged_tail(rng, nb), "kern": K, "gen": "lle-" + kind}
+
+
+def ragged_tail(rng, nb):
+    """lists after the first may be LONGER than k = |first list|: the routines only read the first k entries"""
+    if rng.random() < 0.15 and len(nb) > 1:
+        i = rng.randrange(1, len(nb))
+        nb[i] = nb[i] + [rng.randrange(len(nb))]
+    return nb
 
 
 def gen_wm_ltsa(rng):
@@ -213,7 +221,7 @@ def gen_wm_ltsa(rng):
     d = rng.randint(1, min(4, dim if kind == "linear" else 4, k - 1))
     nb = knn_lists(K, k) if rng.random() < 0.7 else random_lists(rng, n, k, dup=False)
     return {"kind": "WM", "meth": "ltsa", "n": n, "d": d, "shift": rng.choice(SHIFTS + SHIFT_DEFAULTS), "tshift": "0",
-            "nbrs": nb, "kern": K, "gen": "ltsa-" + kind}
+            "nbrs": ragged_tail(rng, nb), "kern": K, "gen": "ltsa-" + kind}
 
 
 def flat_data(rng, n, d, span):
@@ -482,7 +490,7 @@ def model_line(c, nbrs, mats):
         return "LTSA %d %d %s %s %s %s" % (n, d, q_tok(rsk), q_tok(fr(c["shift"])), nbt, qmat_text(E))
     if meth == "hlle":
         if "flatX" in c:
-            V = [[Fraction(c["flatX"][j][t]) for t in range(d)] for l in nbrs for j in l]
+            V = [[Fraction(c["flatX"][j][t]) for t in range(d)] for l in nbrs for j in l[:k]]
         else:
             E = mats["Eloc"]
             V = [row[k - d:] for row in E]
